@@ -79,6 +79,9 @@ var writers = []tmpl{
 var derivers = []tmpl{
 	{"D = X[0:2]", "slice", "D"},
 	{"D = X[1:]", "slice", "D"},
+	// empty slices keep a position inside (and the capacity of) the operand's storage
+	{"D = X[1:1]", "slice", "D"},
+	{"D = X[:0]", "slice", "D"},
 	{"D = append(X, 7)", "append", "D"},
 	{"D = X + X", "plus", "D"},
 	{"D = X + [7]", "plus", "D"},
